@@ -72,6 +72,8 @@ type harness struct {
 	quiet bool // no counters / obligations (shrinking, classifier probes)
 	reported map[string]int
 	curDef   int // serial of the build whose definition the model driver currently holds
+	// keepDefaults: the implementation's GetSchemaDefinition carries default values (fix patch 06)
+	keepDefaults bool
 }
 
 func (h *harness) count(k string) {
@@ -1010,6 +1012,12 @@ func main() {
 		}
 		h.model = m
 		defer m.Close()
+	}
+	h.keepDefaults = keepsDefaults()
+	if h.keepDefaults {
+		run.Note("GetSchemaDefinition keeps default values (fix patch 06 present): model variant rebuildKeep")
+	} else {
+		run.Note("GetSchemaDefinition drops default values (fix patch 06 absent, finding F-10a): model variant rebuild")
 	}
 	run.SetRule("generated schema definitions (scalars, enums, input objects with defaults, interfaces, objects, unions, directives; wrapper chains up to 7; feature-gated, deprecated and unreachable members) accepted by the real schema.New, each evaluated for 1-4 request feature sets, ~25 generated documents, and one Clone; distinct = distinct (definition, feature sets, document seed); non-trivial = the definition has a feature-gated member, a default value, a wrapper chain of depth >= 2 and an interface implementation or union")
 
